@@ -7,25 +7,43 @@
 (*   cache document -> a successor Store started from that cache with the  *)
 (*   service unreachable -> a file-backed client reading the cache.        *)
 (*                                                                         *)
+(* A name has a future, too: a journey may be followed by                  *)
+(*                                                                         *)
+(*   "newver"    other (shorter) bytes put as the next version and         *)
+(*               activated while a Store started from the cache file is    *)
+(*               running: get, get-version -> the running Store after a    *)
+(*               poll -> its cache document (rewritten with a shorter      *)
+(*               document) -> a successor Store from the cache -> the      *)
+(*               file-backed client;                                       *)
+(*   "recreate"  the secret deleted and put again with other bytes (its    *)
+(*               version numbers start over): get, get-version -> restart  *)
+(*               -> get -> a Store that still holds the old secret in its  *)
+(*               cache, after a poll -> cache document -> file client.     *)
+(*                                                                         *)
 (* State: the value put (identified by length and digest) and the hop      *)
-(* reached.  Every hop must deliver exactly the value put; the only        *)
+(* reached.  Every hop must deliver exactly the value put last; the only   *)
 (* exception the property makes is the file-backed client, which omits     *)
-(* empty values.  trace.ndjson: one "put" line per value followed by one   *)
-(* "obs" line per hop in the order above.                                  *)
+(* empty values.  trace.ndjson: one "put" line per journey followed by one *)
+(* "obs" line per hop in the journey's order.                              *)
 (***************************************************************************)
 EXTENDS Integers, Sequences, TLC, Json
 
-Hops == <<"get", "getver", "restart-get", "restart-getver", "store", "cache", "store-from-cache", "fileclient">>
+HopsOf(j) ==
+  CASE j = "newver"   -> <<"get", "getver", "store-poll", "cache", "store-from-cache", "fileclient">>
+    [] j = "recreate" -> <<"get", "getver", "restart-get", "store-poll", "cache", "fileclient">>
+    [] OTHER          -> <<"get", "getver", "restart-get", "restart-getver", "store", "cache", "store-from-cache", "fileclient">>
 Trace == ndJsonDeserialize("trace.ndjson")
+JourneyOf(e) == IF "journey" \in DOMAIN e THEN e.journey ELSE "first"
 
-VARIABLES l, val, hop
-Init == l = 1 /\ val = [len |-> -1, sum |-> ""] /\ hop = Len(Hops)
+VARIABLES l, val, hop, Hops
+Init == l = 1 /\ val = [len |-> -1, sum |-> ""] /\ hop = 0 /\ Hops = <<>>
 
 Put ==
   /\ l <= Len(Trace) /\ Trace[l].ev = "put"
   /\ hop = Len(Hops)                                   \* the previous journey was complete
   /\ Trace[l].ok = "t"                                 \* the service accepts every byte string
   /\ val' = [len |-> Trace[l].len, sum |-> Trace[l].sum] /\ hop' = 0 /\ l' = l + 1
+  /\ Hops' = HopsOf(JourneyOf(Trace[l]))
 
 Obs ==
   /\ l <= Len(Trace) /\ Trace[l].ev = "obs"
@@ -34,7 +52,7 @@ Obs ==
      IF e.hop = "fileclient" /\ val.len = 0
      THEN e.found = "f" \/ (e.len = 0)                 \* "when non-empty": an empty secret may be absent there
      ELSE e.found = "t" /\ e.len = val.len /\ e.sum = val.sum
-  /\ hop' = hop + 1 /\ l' = l + 1 /\ UNCHANGED val
+  /\ hop' = hop + 1 /\ l' = l + 1 /\ UNCHANGED <<val, Hops>>
 
 Next == Put \/ Obs
 Accepted == PrintT(<<"HW", TLCGet("stats").diameter>>) /\ TLCGet("stats").diameter = Len(Trace) + 1
